@@ -5,6 +5,7 @@ import z3
 
 from .interp import Interp, LoopSpec
 from .interp_expr import PyRaise
+from .path import Unsupported
 from .values import (DequeV, EnumMap, EnumSet, EnumVal, EnvFn, FuncV, LockV, Obj, Ref, SFloat, SOpt, Sym,
                      fresh_name, FIN)
 
@@ -103,6 +104,11 @@ def adopt_unknown_fields(it, obj, ci, init_kwargs, declared):
         for n in _ast.walk(fi.node):
             if isinstance(n, _ast.Attribute) and isinstance(n.ctx, _ast.Store) and isinstance(n.value, _ast.Name) and n.value.id == "self":
                 mutated.add(n.attr)
+    gone = sorted(f for f in obj.fields if f not in fresh.fields and f.startswith("_") and not f.startswith("__"))
+    if gone:
+        # the sidecar's symbolic object carries a private field the real class no longer creates: its representation changed and
+        # the contracts written over that field say nothing about this code any more - undecided, not a violation
+        raise Unsupported(f"{ci.name} no longer has the field(s) {gone} the sidecar contracts are written over (representation changed)")
     added = []
     for f, v in fresh.fields.items():
         if f in obj.fields or f in declared:
